@@ -23,9 +23,12 @@
 
    One Pass action = one more argument, pushed through Level A and every
    Level-I decider at once; `dis` collects the *classes* of disagreement of
-   that transition.  Invariant Agree: every class is in Waived (the classes
-   recorded as open findings); a behaviour is not continued past a
-   disagreement.  Call simulates the whole call on the slot stack.
+   that transition, per side.  Invariant Agree: every class is in Waived (the
+   classes recorded as open findings).  A side (caller / callee) that has
+   deviated is switched off (cj / ej) and the other side is explored further on
+   its own - with a conforming compiler on the deviating side the rest of the
+   behaviour is still well defined; a behaviour ends when both are off.  Call
+   simulates the whole call on the slot stack.
 
    Two ways to run it (see the .cfg files):
      graph : VIEW GraphView hides the argument history -> TLC explores the
@@ -36,7 +39,10 @@
              <= MaxLen over the kind alphabet.
    With Emit every Pass transition is written out as a replayable behaviour:
    the signature, where the psABI puts every argument and the return value,
-   %al, and the disagreement classes the model predicts.                   *)
+   %al, the disagreement classes the model predicts, which sides are still
+   judged, and whether the probe extension (one more S24 / one more long and
+   double) is disagreement-free - the generator replays that extension too, so
+   that what a step leaves behind (overflow cursor, counters) is observed.  *)
 EXTENDS Integers, Sequences, FiniteSets, TLC, Json, CSV, IOUtils, SequencesExt
 
 CONSTANTS
